@@ -298,7 +298,9 @@ Inductive op :=
 | OSync (k : cls) (id : Z)                            (* obj.syncUpdate() *)
 | ODestroy (k : cls) (id : Z)
 | OGet (k : cls) (id : Z) (fresh : bool)              (* cls.get(id), after cache.clear() when fresh *)
-| OSelect (k : cls).                                  (* list(cls.select(orderBy='id')) *)
+| OSelect (k : cls)                                   (* list(cls.select(orderBy='id')) *)
+| OExpire (k : cls) (id : Z)                          (* obj.expire() *)
+| OSyncFull (k : cls) (id : Z).                       (* obj.sync() *)
 
 (* the result of the update paths: outcome, trace, the instance's pending
    values afterwards, the UPDATE statements that reached the table *)
@@ -475,6 +477,23 @@ Definition step (g : cfg) (st : state) (o : op) : state * outcome * list (ev cls
   | OGet k id _ =>
       if tbl_has id (k_tbl (ks st k)) then (st, Ids [id], []) else (st, Exn XNotFound, [])
   | OSelect k => (st, Ids (map fst (k_tbl (ks st k))), [])
+  | OExpire k id =>
+      (* the cached attributes go, and with them what a lazy instance held
+         back (whether or not it was expired already); no event *)
+      with_handle st k id (fun h =>
+        let s := ks st k in
+        (set_ks st k {| k_tbl := k_tbl s; k_next := k_next s; k_hs := h_put id {| h_pend := [] |} (k_hs s);
+                        k_fired := k_fired s |}, Done, []))
+  | OSyncFull k id =>
+      (* sync(): syncUpdate() if something is pending, then the row is read
+         again: SQLObjectNotFound if it is gone (after the flush) *)
+      with_handle st k id (fun h =>
+        let r := sync_core g k id (h_pend h) (k_fired (ks st k)) in
+        let x := commit_ures st k id r in
+        match u_out r with
+        | Done => if tbl_has id (k_tbl (ks st k)) then x else (fst (fst x), Exn XNotFound, u_tr r)
+        | _ => x
+        end)
   end.
 
 (* a history: every step with its pre-state, outcome and trace *)
@@ -546,7 +565,11 @@ Definition spec_events (g : cfg) (st : state) (o : op) : list (ev cls) :=
         ++ [EWrite (WDelete k id)]
         ++ run_posts SDestroy k id (posts SDestroy L)
         ++ after_part (tab g k) SDestroyed k id
-  | OGet _ _ _ | OSelect _ => []
+  | OSyncFull k id =>
+      let p := pend_of st k id in
+      if is_nil p then []
+      else [EWrite (WUpdate k id (sort_cols p))] ++ after_part (tab g k) SUpdated k id
+  | OGet _ _ _ | OSelect _ | OExpire _ _ => []
   end.
 
 (* "Changes a listener makes to the keyword arguments are what gets stored":
@@ -562,9 +585,9 @@ Definition spec_table (g : cfg) (st : state) (o : op) : list (Z * kwargs) :=
   | OSet k id kw0 =>
       if is_lazy k then k_tbl (ks st k)
       else tbl_update id (sort_cols (final_kw SUpdate (sel SUpdate (tab g k)) (mk_kw kw0))) (k_tbl (ks st k))
-  | OSync k id => tbl_update id (sort_cols (pend_of st k id)) (k_tbl (ks st k))
+  | OSync k id | OSyncFull k id => tbl_update id (sort_cols (pend_of st k id)) (k_tbl (ks st k))
   | ODestroy k id => tbl_delete id (k_tbl (ks st k))
-  | OGet k _ _ | OSelect k => k_tbl (ks st k)
+  | OGet k _ _ | OSelect k | OExpire k _ => k_tbl (ks st k)
   end.
 (* ... and the values a lazy instance holds back for its next syncUpdate *)
 Definition spec_pend (g : cfg) (st : state) (o : op) : kwargs :=
@@ -579,7 +602,7 @@ Definition spec_pend (g : cfg) (st : state) (o : op) : kwargs :=
   end.
 Definition op_target (o : op) : option (cls * Z) :=
   match o with
-  | OAssign k id _ _ | OSet k id _ | OSync k id => Some (k, id)
+  | OAssign k id _ _ | OSet k id _ | OSync k id | OExpire k id | OSyncFull k id => Some (k, id)
   | _ => None
   end.
 
@@ -598,13 +621,14 @@ Definition after_sig (st : state) (o : op) : option sig :=
   match o with
   | OCreate _ _ => Some SCreated
   | OAssign k _ _ _ | OSet k _ _ => if is_lazy k then None else Some SUpdated
-  | OSync k id => if is_nil (pend_of st k id) then None else Some SUpdated
+  | OSync k id | OSyncFull k id => if is_nil (pend_of st k id) then None else Some SUpdated
   | ODestroy _ _ => Some SDestroyed
   | _ => None
   end.
 Definition op_cls (o : op) : cls :=
   match o with
-  | OCreate k _ | OAssign k _ _ _ | OSet k _ _ | OSync k _ | ODestroy k _ | OGet k _ _ | OSelect k => k
+  | OCreate k _ | OAssign k _ _ _ | OSet k _ _ | OSync k _ | ODestroy k _ | OGet k _ _ | OSelect k
+  | OExpire k _ | OSyncFull k _ => k
   end.
 
 (* does the operation owe its class a delivery of signal s? *)
